@@ -32,28 +32,41 @@ NAMESPACE = "Rpyc.Props.C03"
 GEN = ["Box.lean", "Brine.lean"]
 DRIVERS = ["drv_box"]
 TRUSTED = [
-    "modelled, not verified: `get_id_pack` is a stable injective key of a live object (also for a proxy of another "
-    "connection, which this connection treats as an ordinary object); CPython's exact `type()` identity and prompt "
-    "finalisation of unreferenced proxies; pickle (obtain / deliver) is exercised on the real code only",
+    "modelled, not verified: `get_id_pack` is ASSUMED to be a stable injective key of a live object.  For ordinary objects "
+    "it is built from id(); for an object that carries an `____id_pack__` attribute (a proxy of another connection, or any "
+    "object that defines one) it is that attribute, i.e. ids of a FOREIGN process: two foreign connections, forked servers "
+    "or a forged attribute can collide, and `RefCountingColl.add` then keeps the first object under the key.  The only "
+    "chained scenario checked here is in-process, where ids cannot collide; colliding keys are outside the claim",
+    "modelled, not verified: CPython's exact `type()` identity and prompt finalisation of unreferenced proxies (cyclic-GC "
+    "finalisation of proxies is not generated); the checks run under CPython 3.12, where slices are hashable (a frozenset "
+    "may hold one); pickle (obtain / deliver) is exercised on the real code only, nine fixed cases",
     "harness: the classification of a Python value into plain / exact tuple / other object written from the property "
     "statement (exact types), the peer application harness/box_peer.py, serial numbers for 'which proxy object'",
 ]
 ASSUMPTIONS = [
     "values whose serialisation C04 excludes (an int beyond the interpreter's str() digit limit, lengths >= 2**32, nesting "
-    "beyond the recursion limit) are not generated; lone surrogates are left to C04",
-    "by_ref_mutation (theorem 4 of DESIGN.md) is a statement about the handler layer (L6); here it is checked on the real "
-    "code only: list/dict/set/bytearray/instance mutated through the proxy, observed at the owner",
+    "beyond the recursion limit) are not generated as values that travel; lone surrogates are left to C04",
+    "'a change made through the reference is a change to the owner's object' and 'obtain / deliver give an equal but "
+    "independent object' have NO theorem (the handler layer and pickle are not modelled here): they are checked on the real "
+    "code only — list/dict/set/bytearray/instance mutated through the proxy and observed at the owner; nine obtain/deliver cases",
+    "single dispatcher per end: a second thread of the same end racing `_unbox`'s two cache lookups is outside (C12/C13); the "
+    "window that needs no thread — a message carrying the same object dispatched by the nested serve() of `_unbox`'s own "
+    "HANDLE_INSPECT round trip — IS covered (generated constant oneProxyAcrossInspect, theorem one_proxy_across_inspect, "
+    "scenario same-object-during-inspect)",
     "chained connections (a proxy forwarded over a second connection) are covered by the model's rule 'a proxy of another "
-    "connection is an ordinary object' and one real three-party scenario per run, not by generated conversations",
+    "connection is an ordinary object' and one real in-process three-party scenario per run, not by generated conversations; "
+    "`_box` refusing to lend on a closed channel (EOFError) is C11's; B's own objects handed back are list, empty dict, function",
 ]
 EXPLANATION = ("Theorems: unbox_box (what `_box` produces, the peer's `_unbox` accepts and yields an equal plain value of the "
                "same type tree / a proxy of the same key / the original for a handed-back proxy, through tuples of any shape), "
                "value_transfer (the same through brine, by C04.load_dump, and label-tree parsing), by_value_iff_plain, "
                "subclass_by_ref, tuple_with_reference_not_value, echo_identity (+ reachable: with C10.alive_while_held), "
-               "unbox_two_pass_agrees (resolve-then-create = the one-pass walk on every accepted package), "
-               "missing_local_ref_refused_first (KeyError before anything is created), "
-               "proxy_unique, same_proxy_twice, proxy_survives_traffic, fresh_proxy_is_new, box_unbox_counts (bridge to the "
-               "C10 machine), labels_distinct (generated constants).")
+               "unbox_two_pass_agrees, missing_local_ref_refused_first, proxy_unique, same_proxy_twice, "
+               "proxy_survives_traffic, fresh_proxy_is_new, box_unbox_counts (bridge to the C10 machine), labels_distinct "
+               "(generated constants); over ALL finite conversations (send kept/not, echo, make, forget, any values): "
+               "conv_invariant (both directions balanced, proxies identified), conv_proxies_identified, conv_echo_identity, "
+               "conv_no_leak; one_proxy_across_inspect (generated constant) with stale_miss_makes_two_proxies as the "
+               "counterexample for the check-then-insert order. NOT proved (real code only): by-reference mutation, obtain/deliver.")
 
 
 # ---------------------------------------------------------------------------------------------- classification
@@ -771,10 +784,66 @@ def extras_falsy():
     return c10.extra_falsy_baton()
 
 
+def extras_inspect_window():
+    """the same object of a not-yet-seen class in two messages sent back to back: the second is dispatched by the nested
+    serve() of the first one's HANDLE_INSPECT round trip.  Both receptions must be ONE proxy (`is`), counting 2, and after
+    it is let go the owner's table is empty.  Single-threaded ends; real code only."""
+    import rpyc
+    import simnet
+    from rpyc.core import brine
+    errs = []
+    net = simnet.Net()
+    with net.installed():
+        ca, cb = net.connect_pair(compress=False)
+        try:
+            got, hold = [], []
+
+            def keep(x):                 # runs at A
+                got.append(x)
+                return len(got)
+
+            def twice(keep_fn, n):       # runs at B: one fresh-class object in n requests, sent back to back
+                fresh = type("FreshTwice", (object,), {})()
+                hold.append([fresh] + [rpyc.async_(keep_fn)(fresh) for _ in range(n)])
+                return None
+
+            def ping():
+                return None
+            twice_p, ping_p = [ca._unbox(brine.load(brine.dump(cb._box(f)))) for f in (twice, ping)]
+            for n in (2, 3):
+                del got[:]
+                twice_p(keep, n)
+                ping_p()
+                ping_p()
+                if len(got) != n:
+                    errs.append("%d requests with the same fresh object: %d arrived" % (n, len(got)))
+                elif not all(p is got[0] for p in got):
+                    errs.append("the same remote object received %d times while its proxy is alive (the later messages "
+                                "dispatched during the first one's INSPECT round trip) arrived as %d different proxies"
+                                % (n, len(set(id(p) for p in got))))
+                elif object.__getattribute__(got[0], "____refcount__") != n:
+                    errs.append("one proxy received %d times counts %d references" % (
+                        n, object.__getattribute__(got[0], "____refcount__")))
+                del got[:]
+                ping_p()
+                ping_p()
+                left = [k for k in cb._local_objects._dict if k[0].endswith("FreshTwice")]
+                if left:
+                    errs.append("after the proxies were let go the owner's table still holds the object")
+        except Exception as ex:  # noqa
+            errs.append("the inspect-window scenario raised %s: %s" % (type(ex).__name__.split(".")[-1], str(ex)[:100]))
+        finally:
+            twice_p = ping_p = None
+            del got[:], hold[:]
+            net.shutdown([ca])
+    return errs
+
+
 def all_extras():
     import c10
     table = (("mutation-through-proxy", extras_mutation), ("obtain-deliver", extras_copy), ("two-hops", extras_chain),
-             ("release-overtakes-reference", extras_overtake), ("falsy-objects", extras_falsy))
+             ("release-overtakes-reference", extras_overtake), ("falsy-objects", extras_falsy),
+             ("same-object-during-inspect", extras_inspect_window))
     return tuple((name, c10._bounded_extra(name, fn)) for name, fn in table)
 
 
